@@ -181,7 +181,9 @@ def run(ck):
     # tokens handed to reregister/unregister derive from this iteration's event token
     for cs in T.calls(b, name="new", path="TokenFactory::new") + T.calls(b, name="new", path="RegistrationToken::new"):
         if cs.bb in dl.blocks:
-            ck.verdict(ev_tok_ok(cs.args[0]), "3", "T6-provenance", b, "token@%s" % cs.path.split("::")[-2], "the token derives from the event of this iteration", "the token does not derive from this iteration's event: %s" % b.roots_str(cs.args[0]), site=b.where(cs.bb))
+            is_reg = cs.path.split("::")[-2] == "RegistrationToken"
+            okt = T.resolves_to_call(b, cs.args[0], token_calls) if is_reg else ev_tok_ok(cs.args[0])
+            ck.verdict(okt, "3", "T6-provenance", b, "token@%s" % cs.path.split("::")[-2], "the token derives from the event of this iteration%s" % (" with its sub-id cleared" if is_reg else ""), "the token does not derive from this iteration's event%s: %s" % (" with the sub-id cleared (the Disable/Remove is then applied under a token the lifecycle set does not know: the source keeps receiving its hooks / the next dispatch panics)" if is_reg else "", b.roots_str(cs.args[0])), site=b.where(cs.bb))
     # Remove arm: the slot of this iteration's token is cleared
     rem_stores = [(i, j, st) for i, j, st in src_stores if only_via(i, "Remove")]
     if not rem_stores:
